@@ -71,5 +71,10 @@ class MultipleOf(Validator):
             if not is_multiple:
                 raise ValidationError
             return
-        if value % multiple_of:
+        try:
+            remainder = value % multiple_of
+        except OverflowError:
+            # The divisor does not fit in a float: decide exactly.
+            remainder = Fraction(value) % Fraction(multiple_of)
+        if remainder:
             raise ValidationError
